@@ -72,6 +72,45 @@ def oracle(line: str, obs: Obs):
                         if after and after[0]["live"] == "1":
                             fails.append({"what": "connection not closed once its DPA had arrived and its pending output was flushed "
                                                   "(it sat out the wait timeout)", "event": ev[:200], "real": str(after[0])})
+            # … and promptly: in the same step in which the DPA is read when nothing is waiting to be written
+            blocked_now = {c for c in state if False}
+            for evb, _ in obs.blocks:
+                tb = evb.split(" ")
+                if tb[0] == "block":
+                    (blocked_now.add if tb[2] == "1" else blocked_now.discard)(f"c{tb[1]}")
+                if evb == ev:
+                    break
+            sub_ev, sub = None, []
+            subs = []
+            for l in lines:
+                if l.startswith("EVN "):
+                    if sub_ev is not None:
+                        subs.append((sub_ev, sub))
+                    sub_ev, sub = l[4:], []
+                elif sub_ev is not None:
+                    sub.append(l)
+            if sub_ev is not None:
+                subs.append((sub_ev, sub))
+            for sev, slines in subs:
+                st = sev.split(" ")
+                if st[0] == "block":
+                    (blocked_now.add if st[2] == "1" else blocked_now.discard)(f"c{st[1]}")
+                msgs = []
+                if st[0] == "rx" and len(st) == 3:
+                    msgs = [(f"c{st[1]}", st[2])]
+                elif st[0] == "rxm":
+                    msgs = [(f"c{p.split(':', 1)[0]}", p.split(":", 1)[1]) for p in st[1:]]
+                for c, mtxt in msgs:
+                    try:
+                        m = parse_msg(mtxt)
+                    except Exception:  # noqa
+                        continue
+                    if m["cmd"] == 282 and not m["R"] and c in dprs and c not in blocked_now:
+                        after = next((kv(l) for l in slines if l.startswith(f"CONN {c} ")), None)
+                        if after is not None and after["live"] == "1":
+                            fails.append({"what": "connection not closed when its DPA arrived although nothing was waiting to be "
+                                                  "written (it sat out the wait timeout)", "event": ev[:200], "nested": sev[:120],
+                                          "real": f"{c} {after}"})
             if not any(l == "STOPPED" for l in lines):
                 fails.append({"what": "stop() did not return normally", "event": ev[:200],
                               "real": str([l for l in lines if l.startswith(("RAISE", "CRASH"))])})
@@ -101,6 +140,17 @@ def scenarios(rng: random.Random, tier: str):
         h[0] += 1
         return h[0]
     names = ["peer1.x", "peer2.x"]
+    # a dialled connection still awaiting its CEA when stop() begins gets no DPR; its CEA arrives inside the window and the
+    # peer then stays silent beyond the idle timeout: no watchdog goes out while stopping
+    for tmo in (8, 12):
+        out.append(CFG + " | start ok | stop 0 %d rx_0_%s adv_6 adv_1 adv_6" % (tmo, nodegen.cea(2001, "peer3.x", n(), n())))
+        out.append(CFG + " | start ok | acc | rx 1 " + nodegen.cer("peer1.x", "4", n(), n()) +
+                   " | stop 0 %d rx_0_%s adv_6 rx_1_%s adv_6" % (tmo, nodegen.cea(2001, "peer3.x", n(), n()), nodegen.dpa(n(), n(), "peer1.x")))
+    # two ready peers whose DPAs arrive in the same pass of the I/O loop
+    for tmo in (3, 6):
+        pre2 = (CFG + " | start fail | acc | rx 1 " + nodegen.cer("peer1.x", "4", n(), n()) + " | acc | rx 2 " +
+                nodegen.cer("peer2.x", "4", n(), n()))
+        out.append(pre2 + f" | stop 0 {tmo} rxm_1:{nodegen.dpa(n(), n(), 'peer1.x')}_2:{nodegen.dpa(n(), n(), 'peer2.x')}")
     for rep in range(120 if tier == "quick" else 2500):
         evs = ["start " + rng.choice(["ok", "inp", "fail"])]
         # conn 0 is the dial to persistent peer3
